@@ -111,4 +111,12 @@ let cmd_v0raw t =
       (match rs with Some b -> hex_of_bytes b | None -> "sererr") again
       (b2s (v0_wf vp vs q)) (b2s (v0_wf_core vp vs q)) (b2s (v0_canon q))
 
-let () = register "v0" cmd_v0; register "v0raw" cmd_v0raw
+(* v0fin <idx> <opt fsig> <opt fwit> <packet before Finalize>: the packet the finalizer leaves *)
+let cmd_v0fin t =
+  let idx = next_int t in
+  let fs = read_opt t next_hex in
+  let fw = read_opt t next_hex in
+  let p = read_pset t in
+  Printf.printf "res=ok fin=%s\n" (dump_pset (v0_finalize_at p (nat_of_int idx) fs fw))
+
+let () = register "v0" cmd_v0; register "v0raw" cmd_v0raw; register "v0fin" cmd_v0fin
